@@ -31,7 +31,7 @@ CLAIMS = {
   technique="Lean 4 proof: encoders of any projective representation equal the SEC1 encoding of the abstract point; round trips by composition with the C03 theorem",
   text="Kernel-checked: Encode/EncodeUncompressed are the SEC1 compressed/uncompressed forms of the abstract point (00 for the identity) for every valid triple, hence identical for all "
        "representations of a group element; Decode(Encode(P)) and Decode(EncodeUncompressed(P)) succeed and give the same group element; XCoordinate is a view of Encode.",
-  note=TB + "Hex/MarshalBinary wrappers and the byte assembly are hand models tied by the enc and roundtrip families (re-scaled representations, every identity representation, points with x just below p)."),
+  note=TB + "Encode/EncodeUncompressed/XCoordinate are regenerated (byte array, constant-time select/copy, append) and proved equal to the model; Hex/MarshalBinary wrappers and Bytes() are hand models tied by the enc and roundtrip families (re-scaled representations, every identity representation, points with x just below p)."),
  "C05": dict(
   technique="Lean 4 proof: cross-multiplied comparison decides equality in the group for all representations, on the regenerated isEqual (both alias patterns)",
   text="Kernel-checked: Equal returns 1 iff the operands are the same element of Mathlib's group, else 0, is symmetric, and IsIdentity holds exactly for the identity, for all valid projective triples.",
